@@ -144,6 +144,8 @@ class Tx(object):
         return self
 
     def check_solution(self, tx_in_idx: int, *args: Any, **kwargs: Any) -> None:
+        if len(self.unspents) <= tx_in_idx or self.unspents[tx_in_idx] is None:
+            raise ScriptError("the output spent by input %d is unknown" % tx_in_idx)
         sc = self.SolutionChecker(self)
         tx_context = sc.tx_context_for_idx(tx_in_idx)
         sc.check_solution(tx_context, *args, **kwargs)
